@@ -406,7 +406,7 @@ theorem NP_validate (cfg : StructCfg) (name : Bytes) (v : GoVal) (g : Bool) (st 
   | int _ _ => rw [validate]; exact NP_nonStruct _ _ _ _
   | uint _ _ => rw [validate]; exact NP_nonStruct _ _ _ _
   | float _ _ _ _ => rw [validate]; exact NP_nonStruct _ _ _ _
-  | iface _ => rw [validate]; exact NP_nonStruct _ _ _ _
+  | iface _ _ => rw [validate]; exact NP_nonStruct _ _ _ _
   | slice _ _ _ _ => rw [validate]; exact NP_nonStruct _ _ _ _
   | array _ _ _ => rw [validate]; exact NP_nonStruct _ _ _ _
   | map _ _ _ _ => rw [validate]; exact NP_nonStruct _ _ _ _
@@ -436,7 +436,7 @@ theorem NP_existTop (cfg : StructCfg) (sn fname : Bytes) (v : GoVal) (k skip : B
   | int _ _ => rw [existTop]; exact NP_pure _
   | uint _ _ => rw [existTop]; exact NP_pure _
   | float _ _ _ _ => rw [existTop]; exact NP_pure _
-  | iface _ => rw [existTop]; exact NP_pure _
+  | iface _ _ => rw [existTop]; exact NP_pure _
   | other _ _ _ _ => rw [existTop]; exact NP_pure _
 theorem NP_existStripped (cfg : StructCfg) (sn fname : Bytes) (v : GoVal) (k skip : Bool) (cus : Bytes) (st : WSt) :
     NP (existStripped cfg sn fname v k skip cus st) := by
@@ -454,7 +454,7 @@ theorem NP_existStripped (cfg : StructCfg) (sn fname : Bytes) (v : GoVal) (k ski
   | int _ _ => rw [existStripped]; exact NP_pure _
   | uint _ _ => rw [existStripped]; exact NP_pure _
   | float _ _ _ _ => rw [existStripped]; exact NP_pure _
-  | iface _ => rw [existStripped]; exact NP_pure _
+  | iface _ _ => rw [existStripped]; exact NP_pure _
   | other _ _ _ _ => rw [existStripped]; exact NP_pure _
 theorem NP_elemsLoop (cfg : StructCfg) (path : Bytes) (i : Nat) (es : GoVals) (st : WSt) : NP (elemsLoop cfg path i es st) := by
   cases es with
